@@ -19,6 +19,7 @@ C12-b in Disk.GetFilesystem every implementer of filesystem.FileSystem is probed
 C12-c every filesystem reader rejects on its format's magic: a comparison with the format's signature constant (0x55AA, "CD001", 0x73717368, 0xEF53) lies in a function reachable from the package Read, its mismatch edge returns an error, and that error is propagated by every caller up to Read.
 C12-d FAT12/FAT16 thresholds: Create and Read of one package reject the same cluster-count intervals, and the FAT12 and FAT16 acceptance intervals are adjacent and disjoint (4085, 65525).
 C12-e writer magic = reader magic at the same offset (byte-layout extraction, see codec rules).
+C12-f recognition is position-independent: in the six filesystem readers no rejection (an error return) is decided by a condition that depends on the start offset of the range (other than a sign test of start itself) - the property quantifies over whole disk and any partition.
 Not covered: equality of the cluster-count formulas in Create and Read; whether fat32.Read rejects every FAT16 image.`)
 }
 
@@ -27,7 +28,8 @@ func runC12(w *World, r *Report) {
 	c12Probes(w, r)
 	c12Magic(w, r)
 	c12Thresholds(w, r)
-	runCodecFamily(w, r, "C12-e", codecPairsC12)
+	c12PositionIndependent(w, r)
+	r.Floor("C12-f", r.countRule("C12-f"), 6)
 	r.Floor("C12-a", r.countRule("C12-a"), 3)
 	r.Floor("C12-b", r.countRule("C12-b"), 13)
 	r.Floor("C12-c", r.countRule("C12-c"), 10)
@@ -308,8 +310,10 @@ type rejectIv struct {
 const ivInf = int64(1) << 40
 
 func c12Thresholds(w *World, r *Report) {
+	rounding := map[string]bool{}
 	intervals := func(fn *ssa.Function) []rejectIv {
 		var out []rejectIv
+		rounding = map[string]bool{}
 		for _, b := range fn.Blocks {
 			iff, ok := lastInstr(b).(*ssa.If)
 			if !ok {
@@ -323,15 +327,13 @@ func c12Thresholds(w *World, r *Report) {
 			if !isC || k < 4000 || k > 70000 {
 				continue
 			}
-			// a cluster count is a quotient (data sectors / sectors per cluster); size checks are not
-			isQuot := false
-			for _, bo := range w.prov(bin.X, provOpts{}).BinOps {
-				if bo.Op == token.QUO {
-					isQuot = true
-				}
-			}
-			if !isQuot {
+			// a cluster count is a quotient (data sectors / sectors per cluster), computed here or in a helper; size checks are not
+			qs := clusterQuotients(w, bin.X, 0)
+			if len(qs) == 0 {
 				continue
+			}
+			for _, q := range qs {
+				rounding[quotRounding(q)] = true
 			}
 			var trueIv, falseIv rejectIv
 			switch bin.Op {
@@ -372,7 +374,11 @@ func c12Thresholds(w *World, r *Report) {
 	for _, pkg := range []string{"filesystem/fat12", "filesystem/fat16"} {
 		cr, rd := w.Func(pkg, "Create"), w.Func(pkg, "Read")
 		cl, ch := accept(intervals(cr))
+		cRound := joinSorted(rounding)
 		rl, rh := accept(intervals(rd))
+		rRound := joinSorted(rounding)
+		r.Check(cRound == rRound && cRound == "floor", "C12-d", pkg, "Create and Read count clusters with the same rounding", w.relFile(rd.Pos()), cRound,
+			fmt.Sprintf("Create compares a cluster count rounded %q, Read one rounded %q: a volume with a partial trailing cluster at the threshold is created as one FAT type and read as the other (the FAT specification counts whole clusters)", cRound, rRound))
 		r.Check(cl == rl && ch == rh && (cl > 0 || ch < ivInf), "C12-d", pkg, "Create and Read accept the same cluster-count interval", w.relFile(rd.Pos()),
 			fmt.Sprintf("[%d,%s)", cl, ivStr(ch)), fmt.Sprintf("Create accepts cluster counts [%d,%s) but Read accepts [%d,%s): a volume Create makes can be refused or misfiled by Read", cl, ivStr(ch), rl, ivStr(rh)))
 		pkgAcc[pkg] = acc{rl, rh}
@@ -382,6 +388,135 @@ func c12Thresholds(w *World, r *Report) {
 		fmt.Sprintf("fat12 [%d,%s) fat16 [%d,%s)", a12.lo, ivStr(a12.hi), a16.lo, ivStr(a16.hi)),
 		fmt.Sprintf("fat12 reads accept [%d,%s) and fat16 reads accept [%d,%s): an image can be claimed by both or by neither", a12.lo, ivStr(a12.hi), a16.lo, ivStr(a16.hi)))
 	r.Check(a16.hi == 65525, "C12-d", "filesystem/fat16", "FAT16 upper bound is 65525", "filesystem/fat16", "", fmt.Sprintf("fat16 accepts cluster counts up to %s, the FAT specification's limit is 65525", ivStr(a16.hi)))
+}
+
+// clusterQuotients: the division(s) whose result v is, looking through conversions, phis and the results of
+// in-module helpers.
+func clusterQuotients(w *World, v ssa.Value, depth int) []*ssa.BinOp {
+	v = stripConv(v)
+	if depth > 4 {
+		return nil
+	}
+	switch x := v.(type) {
+	case *ssa.BinOp:
+		if x.Op == token.QUO {
+			return []*ssa.BinOp{x}
+		}
+	case *ssa.Phi:
+		var out []*ssa.BinOp
+		for _, e := range x.Edges {
+			out = append(out, clusterQuotients(w, e, depth+1)...)
+		}
+		return out
+	case *ssa.Call:
+		h := x.Call.StaticCallee()
+		if h == nil || !w.fnSet[h] || h.Blocks == nil || h.Signature.Results().Len() != 1 {
+			return nil
+		}
+		var out []*ssa.BinOp
+		for _, ret := range returnsOf(h) {
+			out = append(out, clusterQuotients(w, retResult(ret, 0), depth+1)...)
+		}
+		return out
+	}
+	return nil
+}
+
+// quotRounding: "ceil" when the dividend has the shape x + d - 1 for divisor d, "floor" otherwise.
+func quotRounding(q *ssa.BinOp) string {
+	d := stripConv(q.Y)
+	hasD, hasOne := false, false
+	ts := addends(q.X)
+	for _, t := range ts {
+		tv := stripConv(t.v)
+		if !t.neg && (tv == d || sameLoad(tv, d)) {
+			hasD = true
+		}
+		if k, ok := constInt(tv); ok && ((t.neg && k == 1) || (!t.neg && k == -1)) {
+			hasOne = true
+		}
+	}
+	if len(ts) > 1 && hasD && hasOne {
+		return "ceil"
+	}
+	return "floor"
+}
+
+// sameLoad: two loads/conversions of the same field or variable (go/ssa has no CSE).
+func sameLoad(a, b ssa.Value) bool {
+	ua, ok1 := a.(*ssa.UnOp)
+	ub, ok2 := b.(*ssa.UnOp)
+	if ok1 && ok2 && ua.Op == token.MUL && ub.Op == token.MUL {
+		if ua.X == ub.X {
+			return true
+		}
+		fa, ok1 := ua.X.(*ssa.FieldAddr)
+		fb, ok2 := ub.X.(*ssa.FieldAddr)
+		return ok1 && ok2 && fa.Field == fb.Field && fa.X == fb.X
+	}
+	fa, ok1 := a.(*ssa.Field)
+	fb, ok2 := b.(*ssa.Field)
+	return ok1 && ok2 && fa.Field == fb.Field && fa.X == fb.X
+}
+
+// c12PositionIndependent: the start offset never decides whether a reader accepts the bytes.
+func c12PositionIndependent(w *World, r *Report) {
+	for _, pkg := range []string{"filesystem/fat12", "filesystem/fat16", "filesystem/fat32", "filesystem/iso9660", "filesystem/squashfs", "filesystem/ext4"} {
+		rd := w.Func(pkg, "Read")
+		var start *ssa.Parameter
+		for _, p := range rd.Params {
+			if p.Name() == "start" {
+				start = p
+			}
+		}
+		if start == nil {
+			fatalf("C12-f: %s.Read has no start parameter", pkg)
+		}
+		bad := ""
+		var pos ssa.Instruction
+		n := 0
+		for _, b := range rd.Blocks {
+			iff, ok := lastInstr(b).(*ssa.If)
+			if !ok {
+				continue
+			}
+			bin, ok := iff.Cond.(*ssa.BinOp)
+			if !ok {
+				continue
+			}
+			dep := false
+			for _, op := range []ssa.Value{bin.X, bin.Y} {
+				for _, rt := range w.prov(op, provOpts{}).Roots {
+					if rt.Kind == RParam && rt.Param == start {
+						dep = true
+					}
+				}
+			}
+			if !dep {
+				continue
+			}
+			n++
+			// a test of start itself against the constant 0 (sign test, or the "wrap only when non-zero" test)
+			if x, y := stripConv(bin.X), stripConv(bin.Y); (x == ssa.Value(start) && isZeroConst(y)) || (y == ssa.Value(start) && isZeroConst(x)) {
+				continue
+			}
+			if blockLeadsToErrorReturn(b.Succs[0], 0) || blockLeadsToErrorReturn(b.Succs[1], 0) {
+				bad = "a condition depending on start decides an error return"
+				pos = iff
+			}
+		}
+		where := w.relFile(rd.Pos())
+		if pos != nil {
+			where = w.relFile(instrPos(pos))
+		}
+		r.Check(bad == "", "C12-f", fnName(rd), "rejection does not depend on the start offset", where, fmt.Sprintf("%d start-dependent branches, none rejects", n),
+			bad+": the same bytes are accepted on the whole disk or in a first partition and refused (reported as unknown) further into the disk")
+	}
+}
+
+func isZeroConst(v ssa.Value) bool {
+	k, ok := constInt(v)
+	return ok && k == 0
 }
 
 func ivStr(v int64) string {
